@@ -2,6 +2,7 @@ import Hv.Driver.Core
 import Hv.Vmdk
 import Hv.VmdkDesc
 import Hv.Prim.Inflate
+import Hv.Concat
 namespace Hv.Driver
 open Hv
 
@@ -19,6 +20,27 @@ def vmdkOpenHandles (files : List File) : Except Err (Vmdk.Vmdk × List Vmdk.Spa
       mk := mk ++ [fun so => Vmdk.rawDisk fh none so]
   pure (Vmdk.assemble mk, sparses)
 
+/-- the parts of `VMDK([fh, ...])` for the C10 specification: content of each extent by its own pointwise
+    specification (flat: the file bytes; sparse: `Sparse.guest`), and whether the extent is inside the hypotheses
+    of `vmdk_concat_read_correct` (sparse: `wfbU`; flat: a positive whole number of sectors) -/
+def vmdkPartsHandles (files : List File) : Except Err (List (Concat.Part × Bool)) :=
+  files.mapM fun fh => do
+    let magic := fh.read 0 4
+    if magic = Extracted.vmdk.COWD_MAGIC ∨ magic = Extracted.vmdk.VMDK_MAGIC ∨ magic = Extracted.vmdk.SESPARSE_MAGIC then
+      let sp ← Vmdk.openSparse fh none 0 Inflate.zlibInflate
+      pure (⟨sp.capacity, sp.guest (fun _ => 0)⟩, sp.wfbU && decide (0 < sp.capacity))
+    else
+      pure (⟨fh.size / 512, fh.byte⟩, decide (0 < fh.size / 512) && decide (fh.size % 512 = 0))
+
+/-- wf flag (layout `contiguousb` ∧ every extent inside the hypotheses ∧ size = Σ) and the stream compared with
+    the concatenation specification -/
+def concatCheck (v : Vmdk.Vmdk) (parts : List (Concat.Part × Bool)) (align : Nat) (toks : List String) : String :=
+  let ps := parts.map (·.1)
+  let wf := Concat.contiguousb 0 v.disks.toList && parts.all (·.2) &&
+    decide (v.disks.toList.map (·.sectorCount) = ps.map (·.sectors)) && decide (v.size = Concat.total ps * 512)
+  s!"ok wf={if wf then 1 else 0} n={ps.length} " ++
+    checkStreamSpec v.read (some v.readSectors) 512 (Concat.concat ps) v.size align toks
+
 def vmdkFiles (st : St) (ids : List String) : Except Err (List File) :=
   ids.mapM fun id => match st.file? id with | some f => .ok f | none => .error .other
 
@@ -29,6 +51,13 @@ def vmdkCmd (st : St) : List String → String
       let desc := sps.map (fun sp => s!"[cap={sp.capacity} gs={sp.grainSize} gt={sp.gtSize} gd={sp.gd.size} k={repr sp.kind} wf={if sp.wfb then 1 else 0} wfU={if sp.wfbU then 1 else 0}]")
       s!"ok size={v.size} disks={v.disks.size} wf={if sps.all (·.wfb) then 1 else 0} {" ".intercalate desc}"
     | .error e => s!"err {e}"
+  | "vmdk.concatcheck" :: align :: nids :: rest =>
+    match align.toNat?, nids.toNat? with
+    | some a, some k =>
+      match vmdkFiles st (rest.take k) >>= (fun fs => do pure ((← vmdkOpenHandles fs).1, ← vmdkPartsHandles fs)) with
+      | .ok (v, parts) => concatCheck v parts a (rest.drop k)
+      | .error e => s!"err {e}"
+    | _, _ => "bad-args"
   | "vmdk.stream" :: align :: nids :: rest =>
     match align.toNat?, nids.toNat? with
     | some a, some k =>
@@ -93,6 +122,24 @@ def vmdkOpenDescriptorP (desc : File) (names : List (String × File)) (parent : 
       | _ => mk := mk ++ [fun so => Vmdk.rawDisk fh (some (e.sectors * 512)) so]
   pure (Vmdk.assemble mk, d)
 
+/-- the parts of `VMDK(descriptor)` (no parent), extent by extent as `vmdkOpenDescriptorP` wires them -/
+def vmdkPartsDescriptor (desc : File) (names : List (String × File)) : Except Err (List (Concat.Part × Bool)) := do
+  let some text := fileText desc | throw .other
+  let d := VmdkDesc.parse text.toList
+  let mut parts : List (Concat.Part × Bool) := []
+  for e in d.extents do
+    match VmdkDesc.wire e.type with
+    | .dropped => pure ()
+    | w =>
+      let some fname := e.filename | throw .other
+      let some (_, fh) := names.find? (fun p => p.1.toList = fname) | throw .other
+      match w with
+      | .sparse =>
+        let sp ← Vmdk.openSparse fh none 0 Inflate.zlibInflate
+        parts := parts ++ [(⟨sp.capacity, sp.guest (fun _ => 0)⟩, sp.wfbU && decide (0 < sp.capacity))]
+      | _ => parts := parts ++ [(⟨e.sectors, fh.byte⟩, decide (0 < e.sectors) && decide (e.sectors * 512 ≤ fh.size))]
+  pure parts
+
 def vmdkOpenDescriptor (desc : File) (names : List (String × File)) : Except Err (Vmdk.Vmdk × VmdkDesc.Desc) :=
   vmdkOpenDescriptorP desc names none
 
@@ -133,6 +180,13 @@ def vmdkDescCmd (st : St) : List String → String
     | some a, some k, some df =>
       match parseNames st (rest.take k) >>= vmdkOpenDescriptor df with
       | .ok (v, _) => runStreamSec v.read (some v.readSectors) v.size a (rest.drop k)
+      | .error e => s!"err {e}"
+    | _, _, _ => "bad-args"
+  | "vmdk.desc.concatcheck" :: align :: did :: nn :: rest =>
+    match align.toNat?, nn.toNat?, st.file? did with
+    | some a, some k, some df =>
+      match parseNames st (rest.take k) >>= (fun ns => do pure ((← vmdkOpenDescriptor df ns).1, ← vmdkPartsDescriptor df ns)) with
+      | .ok (v, parts) => concatCheck v parts a (rest.drop k)
       | .error e => s!"err {e}"
     | _, _, _ => "bad-args"
   | "vmdk.desc.delta" :: align :: nl :: rest =>
